@@ -169,6 +169,13 @@ def run(model: RepoModel, rep, tier: str):
 
 
     check_accumulating_loops(model, rep, "C08.R4")
+    from ..generic import check_accumulators
+
+    def _widening(x, guards, pre):
+        return any(w in g for g in guards for w in WIDEN_GUARD) or any(w in " ".join(ast.unparse(s_).split()) for s_ in pre for w in WIDEN_PRE)
+    check_accumulators(model, rep, "C08.R6", [SS, GSS, "core/resolver.py", "core/prelim_semantics.py", "core/global_semantics.py"], C08_ADJUDICATED,
+                       "states, callees or summary entries that reach this point on some path are missing from the computed set (the abstract "
+                       "value no longer covers them)", 40, widening=_widening)
 
     # ------------------------------------------------------------------ R5
     rep.rule("C08.R5", "a rejected evaluation cannot stop the analyser: when the guarded evaluator rejects by exiting the process, every "
@@ -386,7 +393,30 @@ def _t(old, new, count=1):
     return lambda src: __import__("sa.mutate", fromlist=["x"]).text_replace(src, old, new, count)
 
 
+_CS = "self.is_state_a_class_decl(each_state) or each_state.data_type == LIAN_INTERNAL.THIS or name_symbol."
+C08_ADJUDICATED = {
+    f"core/stmt_states.py::StmtStates.call_stmt_state::{a}::return under `{_CS}`":
+        "delegation, not truncation: a callee name that may be a class hands the whole statement to new_object_stmt_state, which re-reads all name states"
+    for a in ("unsolved_callee_states", "this_state_set", "callee_method_ids")
+}
+C08_ADJUDICATED.update({
+    "core/stmt_states.py::StmtStates.array_read_stmt_state::index_values::break under `not (this_value and len(str(this_value)) > 0 and re.match('^-?\\\\d+$', str(this_value)))`":
+        "a non-numeric index empties index_values on purpose: the empty set selects the branch that reads every element of the array (widening)",
+    "core/stmt_states.py::StmtStates.array_read_stmt_state::index_values::rebound `index_values = set()`":
+        "same site: the reset is the widening",
+    "core/stmt_states.py::StmtStates.array_write_stmt_state::index_values::break under `not (this_value and re.match('^-?\\\\d+$', str(this_value)) and (this_value != ''))`":
+        "a non-numeric index empties index_values on purpose: the empty set selects the branch that makes the array tangping (widening)",
+    "core/stmt_states.py::StmtStates.array_write_stmt_state::index_values::rebound `index_values = set()`":
+        "same site: the reset is the widening",
+    "core/stmt_states.py::StmtStates.slice_read_stmt_state::defined_states::break under `not (start_value < end_value < array_length and array_state.array[start_value:end_value:step_value])`":
+        "an out-of-range combination contributes no element; whether the remaining combinations should still be tried is not decided here",
+})
+
 MUTANTS = [
+    ("state-merge-first-predecessor-only", "core/prelim_semantics.py",
+     _t("        for each_parent_stmt_id in parent_stmt_ids:\n            if each_parent_stmt_id in frame.stmt_id_to_status:\n                in_state_bits |= frame.stmt_id_to_status[each_parent_stmt_id].out_state_bits\n",
+        "        for each_parent_stmt_id in parent_stmt_ids:\n            if each_parent_stmt_id in frame.stmt_id_to_status:\n                in_state_bits |= frame.stmt_id_to_status[each_parent_stmt_id].out_state_bits\n                break\n"),
+     "C08.R6"),
     ("python-folder-made-live", "lang/python_parser.py", _t('if not self.is_constant_literal(node) and node.type != "binary_expression":', 'if not self.is_constant_literal(node) and node.type != "binary_operator":'),
      "python_parser.py::Parser.evaluate_literal_binary_expression"),
     ("number-literal-composed", "lang/go_parser.py", _t("        value = self.common_eval(value)", "        value = self.common_eval(value + \" + 0\")"), "go_parser.py"),
